@@ -34,7 +34,7 @@ Module ProdT.
       match goal with Q : Inv4 ?sx, I : Inv ?sx |- _ =>
         destruct Q as [Q1 Q2 Q3 Q4 Q5 Q6 Q7]; destr_inv I; pose_specs sx; pose proof (q_spec (bp sx) (b_after sx) (br sx)); unacc; rew_eqs sx;
         cbn [brB brDn brNo bL3 dDn tDn tNo pNo bNo bLate bSel bRs aL aW aOK b2n] in *;
-        (constructor; red_goal; rew_goal sx; cbn [brB brDn brNo bL3 dDn tDn tNo pNo bNo bLate bSel bRs aL aW aOK b2n]; try lia)
+        (constructor; red_goal; rew_goal sx; cbn [brB brDn brNo bL3 dDn tDn tNo pNo bNo bLate bSel bRs aL aW aOK b2n]; try lia2)
       end
     end.
 
